@@ -518,5 +518,48 @@ func run(r *Rng, tier string, n int) {
 		m.Compress = false
 		checkLen(m, true, false, "beyond-16384")
 	}
+	// (3b) a name STRADDLING the pointer limit: padding puts the first octet of a name (plain, or with escapes
+	// in every label, which shifts text offsets against wire offsets) at every offset 16384-30 .. 16384+3; the
+	// records behind it use each of its suffixes again. Labels that start below 16384 are pointer targets,
+	// labels at or beyond are not: Len and Pack must agree on which
+	{
+		names := []string{"x.long-label-here.tail.zone.", `x.\l\o\n\g\e\s\c\a\p\e.tail.zone.`, `a\.b.c\\d.e\046f.zone.`, `\000\001.\255x.tail.zone.`}
+		for _, nm := range names {
+			for delta := -30; delta <= 3; delta++ {
+				m := new(dns.Msg)
+				m.Compress = true
+				m.SetQuestion("q.", dns.TypeTXT)
+				// header 12 + question 2+4 = 18; each TXT answer with owner "q." compressed: 2+10+1+n
+				off, target := 19, 16384+delta
+				for target-off > 268+14 {
+					m.Answer = append(m.Answer, &dns.TXT{Hdr: dns.RR_Header{Name: "q.", Rrtype: dns.TypeTXT, Class: 1}, Txt: []string{strings.Repeat("p", 250)}})
+					off += 2 + 10 + 1 + 250
+				}
+				if target-off > 268 {
+					m.Answer = append(m.Answer, &dns.TXT{Hdr: dns.RR_Header{Name: "q.", Rrtype: dns.TypeTXT, Class: 1}, Txt: []string{strings.Repeat("p", 87)}})
+					off += 2 + 10 + 1 + 87
+				}
+				rest := target - off // octets still to fill before the name starts: one more TXT of exactly that size
+				if rest < 14 || rest > 268 {
+					st["straddle_filler_arithmetic_off"]++
+					continue
+				}
+				m.Answer = append(m.Answer, &dns.TXT{Hdr: dns.RR_Header{Name: "q.", Rrtype: dns.TypeTXT, Class: 1}, Txt: []string{strings.Repeat("f", rest-13)}})
+				if l := m.Len(); l != target {
+					st["straddle_filler_not_at_target"]++
+				}
+				m.Answer = append(m.Answer, &dns.NS{Hdr: dns.RR_Header{Name: nm, Rrtype: dns.TypeNS, Class: 1}, Ns: "q."})
+				for i := 0; i < len(nm)-1; i++ {
+					if nm[i] == '.' && (i == 0 || nm[i-1] != '\\') {
+						if _, ok := dns.IsDomainName(nm[i+1:]); ok {
+							m.Ns = append(m.Ns, &dns.NS{Hdr: dns.RR_Header{Name: nm[i+1:], Rrtype: dns.TypeNS, Class: 1}, Ns: "n." + nm[i+1:]})
+						}
+					}
+				}
+				checkLen(m, false, false, "straddle-16384")
+				st["straddle_messages"]++
+			}
+		}
+	}
 	Stat(st)
 }
